@@ -20,6 +20,7 @@ unsigned int gNNDataSize = 0;
 namespace sess {
 
 void (*evalObserver)(const void*, int, int, int) = nullptr;
+void (*customOp)(const std::string&) = nullptr;
 
 static History* H = nullptr;
 static uint64_t g_seq = 0;
@@ -234,6 +235,8 @@ struct Gui : vsim::Actor {
             H->sent.push_back(s);
             g_in->queue.push_back((int)H->sent.size() - 1);
             vsim::wake(&g_in->queue);
+        } else if (vf::startsWith(op, "x ")) {
+            if (customOp) customOp(op.substr(2));
         } else if (op == "close") {
             if (!closeDone) doClose();
         } else if (op == "wait_idle") {
